@@ -124,6 +124,12 @@ idl_a_demux_feed		(vbi_idl_demux *	dx,
 	}
 
 	if (0 != crc) {
+		if (dx->ri < 0 && 0 != (ri & 0xF)) {
+			/* Corrupt repeat of a packet we are not waiting
+			   for, no data is lost. */
+			return FALSE;
+		}
+
 		if (0 == (ri & RI_PACKET_REPEATS)) {
 			/* Packet is corrupt and won't repeat. */
 
@@ -160,6 +166,9 @@ idl_a_demux_feed		(vbi_idl_demux *	dx,
 		/* Discard repeat packet. */
 		return TRUE;
 	}
+
+	/* Packet received, discard further repeats. */
+	dx->ri = -1;
 
 	if (dx->ci >= 0) {
 		if (0 != ((ci ^ dx->ci) & 0xFF)) {
